@@ -266,6 +266,9 @@ def forbidden_scan():
   return hits
 
 
+EXTRA_PROPS = {'C02': ['Lexer'], 'C03': ['Lexer']}
+
+
 def proof_step(pid, thorough=False):
   """Rebuild, re-check Props/<pid>.v, parse Print Assumptions.  Returns dict."""
   res = {'obligations': 0, 'discharged': 0, 'theorems': [], 'axioms': {}, 'ok': False,
@@ -274,6 +277,10 @@ def proof_step(pid, thorough=False):
   res['build_s'] = round(dt, 1)
   props = os.path.join(COQ, 'Props', pid + '.v')
   src = open(props).read()
+  # statement files shared by several properties (the character-level lexer under the parser theorems)
+  extra = [os.path.join(COQ, 'Props', n + '.v') for n in EXTRA_PROPS.get(pid, [])]
+  for e in extra:
+    src += '\n' + open(e).read()
   names = re.findall(r'^\s*(?:Theorem|Lemma|Corollary)\s+(\w+)', src, re.M)
   res['theorems'] = names
   res['obligations'] = len(names)
@@ -285,6 +292,10 @@ def proof_step(pid, thorough=False):
     res['failed_theorem'] = 'build:' + (m.group(0) if m else log[-300:])
     return res
   rc, so, se, dt = _coqc(props, timeout=900)
+  for e in extra:
+    if rc == 0:
+      rc, so2, se, dt2 = _coqc(e, timeout=900)
+      so, dt = so + so2, dt + dt2
   res['props_s'] = round(dt, 1)
   if rc != 0:
     res['log'] = (so + se)[-3000:]
@@ -312,7 +323,8 @@ def proof_step(pid, thorough=False):
   if thorough:
     t0 = time.time()
     p = subprocess.run(['timeout', '1800', 'coqchk', '-silent', '-o', '-Q', COQ, 'GinV',
-                        'GinV.Props.' + pid], capture_output=True, text=True, cwd=COQ)
+                        'GinV.Props.' + pid] + ['GinV.Props.' + n for n in EXTRA_PROPS.get(pid, [])],
+                       capture_output=True, text=True, cwd=COQ)
     res['coqchk_rc'] = p.returncode
     res['coqchk_tail'] = (p.stdout + p.stderr)[-1500:]
     res['coqchk_s'] = round(time.time() - t0, 1)
